@@ -104,6 +104,10 @@ pub fn content(c: u8) -> Bytes {
     // distinct small contents; 0 is the empty object
     if c == 0 {
         Bytes::new()
+    } else if c >= 8 {
+        // big objects (1, 2, 4, 8 kB): with these the size rule of the delta retention (all deltas together
+        // no bigger than the snapshot) cuts between deltas of very different sizes
+        Bytes::from(format!("big-object-{c}-").repeat(64 << (c.min(11) - 8)))
     } else {
         Bytes::from(format!("object-content-{c}").repeat(c as usize))
     }
